@@ -190,25 +190,45 @@ Proof.
       apply is_disabled_In in Hin. exfalso. exact (H2 (Grant t) t Hd eq_refl Hin).
 Qed.
 
-(** * The cosmos chain *)
+(** * The two chains *)
 
-Lemma cosmos_handler_spec : forall eip cfg md t rest,
-  cosmos_handler eip cfg md t rest =
+Definition gate (cfg : config) (md : mode) (t : tx) : option reason :=
+  if c_fetchers cfg then authenticated_mempool cfg md t else None.
+
+Lemma cosmos_handler_spec : forall eip cfg md t o,
+  cosmos_handler eip cfg md t o =
   match reject_messages t with Some e => Reject e | None =>
-  match (if c_fetchers cfg then authenticated_mempool cfg md t else None) with Some e => Reject e | None =>
+  if negb (o_pre o) then Reject RRest else
+  match gate cfg md t with Some e => Reject e | None =>
   match vesting_decorator t with Some e => Reject e | None =>
   match authz_limiter t with Some e => Reject e | None =>
-  if rest then Accept (if eip then PWeb3 else PCosmos) else Reject RRest
+  if o_post o then Accept (if eip then PWeb3 else PCosmos) else Reject RRest
   end end end end.
 Proof.
-  intros eip cfg md t rest. unfold cosmos_handler.
+  intros eip cfg md t o. unfold cosmos_handler, gate.
   destruct eip, (c_fetchers cfg);
     cbv [cosmos_chain chain_table filter map cond_holds fst snd negb run_chain run_decorator];
     destruct (reject_messages t); try reflexivity;
+    destruct (o_pre o); try reflexivity;
     try (destruct (authenticated_mempool cfg md t); try reflexivity);
     destruct (vesting_decorator t); try reflexivity;
     destruct (authz_limiter t); try reflexivity;
-    destruct rest; reflexivity.
+    destruct (o_post o); reflexivity.
+Qed.
+
+Lemma eth_handler_spec : forall cfg md t o,
+  eth_handler cfg md t o =
+  if forallb is_eth_msg (t_msgs t) && o_pre o then
+    match gate cfg md t with Some e => Reject e | None =>
+    if o_post o then Accept PEth else Reject REthPath end
+  else Reject REthPath.
+Proof.
+  intros cfg md t o. unfold eth_handler, gate.
+  destruct (c_fetchers cfg);
+    cbv [eth_chain eth_chain_table filter map cond_holds fst snd negb run_chain run_decorator];
+    destruct (forallb is_eth_msg (t_msgs t) && o_pre o); try reflexivity;
+    try (destruct (authenticated_mempool cfg md t); try reflexivity);
+    destruct (o_post o); reflexivity.
 Qed.
 
 Lemma common_addresses_spec : forall a b,
@@ -229,17 +249,41 @@ Proof.
     destruct H as [H | H]; discriminate H.
 Qed.
 
+(* the AuthenticatedMempoolDecorator, when present, lets a tx through exactly when ... *)
+Lemma gate_spec : forall cfg md t,
+  gate cfg md t = None <->
+  (c_fetchers cfg = true -> gate_active md = true ->
+   exists s, In s (t_signers t) /\ In s (c_authorised cfg)).
+Proof.
+  intros cfg md t. unfold gate. destruct (c_fetchers cfg).
+  - unfold authenticated_mempool. fold (gate_active md). destruct (gate_active md).
+    + destruct (common_addresses_exist (t_signers t) (c_authorised cfg)) eqn:E.
+      * split; [intros _ _ _; apply common_addresses_spec; exact E | reflexivity].
+      * split; [intros H; discriminate H|]. intros H. specialize (H eq_refl eq_refl).
+        apply common_addresses_spec in H. rewrite H in E. discriminate E.
+    + split; [intros _ _ H; discriminate H | reflexivity].
+  - split; [intros _ H; discriminate H | reflexivity].
+Qed.
+
+Lemma gate_reason : forall cfg md t e, gate cfg md t = Some e -> e = RMempool.
+Proof.
+  intros cfg md t e. unfold gate, authenticated_mempool.
+  destruct (c_fetchers cfg); [| intros H; discriminate H].
+  destruct (is_check_tx md && negb (simulate_flag md)); [| intros H; discriminate H].
+  destruct (common_addresses_exist _ _); intros H; [discriminate H | injection H as H; symmetry; exact H].
+Qed.
+
 (* exact characterisation of acceptance on a cosmos path *)
-Lemma cosmos_accept_iff : forall eip cfg md t rest p,
-  cosmos_handler eip cfg md t rest = Accept p <->
-  (p = (if eip then PWeb3 else PCosmos) /\ rest = true /\
+Lemma cosmos_accept_iff : forall eip cfg md t o p,
+  cosmos_handler eip cfg md t o = Accept p <->
+  (p = (if eip then PWeb3 else PCosmos) /\ o_pre o = true /\ o_post o = true /\
    (forall top, In top (t_msgs t) -> top <> Plain url_eth) /\
    (c_fetchers cfg = true -> gate_active md = true ->
       exists s, In s (t_signers t) /\ In s (c_authorised cfg)) /\
    (forall top, In top (t_msgs t) -> ~ In (msg_url top) vesting_types) /\
    (forall top, In top (t_msgs t) -> clean disabled_types top)).
 Proof.
-  intros eip cfg md t rest p. rewrite cosmos_handler_spec.
+  intros eip cfg md t o p. rewrite cosmos_handler_spec.
   assert (Hrm : reject_messages t = None <-> forall top, In top (t_msgs t) -> top <> Plain url_eth).
   { unfold reject_messages. destruct (existsb is_eth_msg (t_msgs t)) eqn:E.
     - split; [intros H; discriminate H|]. intros H. apply existsb_exists in E. destruct E as [x [Hx He]].
@@ -248,19 +292,9 @@ Proof.
       assert (Hex : existsb is_eth_msg (t_msgs t) = true).
       { apply existsb_exists. exists (Plain url_eth). split; [exact Hin | apply String.eqb_refl]. }
       rewrite Hex in E. discriminate E. }
-  assert (Hmp : (if c_fetchers cfg then authenticated_mempool cfg md t else None) = None <->
-                (c_fetchers cfg = true -> gate_active md = true ->
-                 exists s, In s (t_signers t) /\ In s (c_authorised cfg))).
-  { destruct (c_fetchers cfg).
-    - unfold authenticated_mempool. fold (gate_active md). destruct (gate_active md).
-      + destruct (common_addresses_exist (t_signers t) (c_authorised cfg)) eqn:E.
-        * split; [intros _ _ _; apply common_addresses_spec; exact E | reflexivity].
-        * split; [intros H; discriminate H|]. intros H. specialize (H eq_refl eq_refl).
-          apply common_addresses_spec in H. rewrite H in E. discriminate E.
-      + split; [intros _ _ H; discriminate H | reflexivity].
-    - split; [intros _ H; discriminate H | reflexivity]. }
+  pose proof (gate_spec cfg md t) as Hmp.
   assert (Hvs : vesting_decorator t = None <-> forall top, In top (t_msgs t) -> ~ In (msg_url top) vesting_types).
-  { unfold vesting_decorator. destruct (existsb _ (t_msgs t)) eqn:E.
+  { unfold vesting_decorator. destruct (existsb (fun m => is_disabled vesting_types (msg_url m)) (t_msgs t)) eqn:E.
     - split; [intros H; discriminate H|]. intros H. apply existsb_exists in E. destruct E as [x [Hx He]].
       apply is_disabled_In in He. exfalso. exact (H x Hx He).
     - split; [| reflexivity]. intros _ top Hin Hv. apply is_disabled_In in Hv.
@@ -276,55 +310,68 @@ Proof.
       { apply check_disabled_spec. intros top Hin. split; [intros H'; discriminate H' | apply H; exact Hin]. }
       rewrite E' in E. discriminate E. }
   destruct (reject_messages t) eqn:E1.
-  { split; [intros H; discriminate H|]. intros [_ [_ [H _]]]. apply Hrm in H. discriminate H. }
-  destruct (if c_fetchers cfg then authenticated_mempool cfg md t else None) eqn:E2.
-  { split; [intros H; discriminate H|]. intros [_ [_ [_ [H _]]]]. apply Hmp in H. discriminate H. }
+  { split; [intros H; discriminate H|]. intros [_ [_ [_ [H _]]]]. apply Hrm in H. discriminate H. }
+  destruct (o_pre o) eqn:Epre; cbn [negb].
+  2:{ split; [intros H; discriminate H | intros [_ [H _]]; discriminate H]. }
+  destruct (gate cfg md t) eqn:E2.
+  { split; [intros H; discriminate H|]. intros [_ [_ [_ [_ [H _]]]]]. apply Hmp in H. discriminate H. }
   destruct (vesting_decorator t) eqn:E3.
-  { split; [intros H; discriminate H|]. intros [_ [_ [_ [_ [H _]]]]]. apply Hvs in H. discriminate H. }
+  { split; [intros H; discriminate H|]. intros [_ [_ [_ [_ [_ [H _]]]]]]. apply Hvs in H. discriminate H. }
   destruct (authz_limiter t) eqn:E4.
-  { split; [intros H; discriminate H|]. intros [_ [_ [_ [_ [_ H]]]]]. apply Haz in H. discriminate H. }
-  destruct rest.
+  { split; [intros H; discriminate H|]. intros [_ [_ [_ [_ [_ [_ H]]]]]]. apply Haz in H. discriminate H. }
+  destruct (o_post o) eqn:Epost.
   - split.
-    + intros H. injection H as H. subst p. split; [reflexivity|]. split; [reflexivity|].
+    + intros H. injection H as H. subst p. split; [reflexivity|]. split; [reflexivity|]. split; [reflexivity|].
       split; [apply Hrm; reflexivity|]. split; [apply Hmp; reflexivity|].
       split; [apply Hvs; reflexivity | apply Haz; reflexivity].
     + intros [Hp _]. subst p. reflexivity.
-  - split; [intros H; discriminate H | intros [_ [H _]]; discriminate H].
+  - split; [intros H; discriminate H | intros [_ [_ [H _]]]; discriminate H].
 Qed.
 
-Lemma eth_accept_iff : forall t rest p,
-  eth_handler t rest = Accept p <->
-  (p = PEth /\ rest = true /\ forall top, In top (t_msgs t) -> top = Plain url_eth).
+Lemma eth_accept_iff : forall cfg md t o p,
+  eth_handler cfg md t o = Accept p <->
+  (p = PEth /\ o_pre o = true /\ o_post o = true /\
+   (forall top, In top (t_msgs t) -> top = Plain url_eth) /\
+   (c_fetchers cfg = true -> gate_active md = true ->
+      exists s, In s (t_signers t) /\ In s (c_authorised cfg))).
 Proof.
-  intros t rest p. unfold eth_handler.
+  intros cfg md t o p. rewrite eth_handler_spec.
   assert (Hall : forallb is_eth_msg (t_msgs t) = true <-> forall top, In top (t_msgs t) -> top = Plain url_eth).
   { rewrite forallb_forall. split.
     - intros H top Hin. specialize (H top Hin). destruct top as [u | ms | tg]; try discriminate H.
       apply String.eqb_eq in H. subst u. reflexivity.
     - intros H top Hin. rewrite (H top Hin). apply String.eqb_refl. }
-  destruct (forallb is_eth_msg (t_msgs t)) eqn:E; destruct rest; cbn [andb].
-  - split; [intros H; injection H as H; subst p; split; [reflexivity | split; [reflexivity | apply Hall; reflexivity]] | intros [Hp _]; subst p; reflexivity].
-  - split; [intros H; discriminate H | intros [_ [H _]]; discriminate H].
-  - split; [intros H; discriminate H|]. intros [_ [_ H]]. apply Hall in H. discriminate H.
-  - split; [intros H; discriminate H | intros [_ [H _]]; discriminate H].
+  pose proof (gate_spec cfg md t) as Hmp.
+  destruct (forallb is_eth_msg (t_msgs t)) eqn:E; cbn [andb].
+  2:{ split; [intros H; discriminate H|]. intros [_ [_ [_ [H _]]]]. apply Hall in H. discriminate H. }
+  destruct (o_pre o) eqn:Epre.
+  2:{ split; [intros H; discriminate H | intros [_ [H _]]; discriminate H]. }
+  destruct (gate cfg md t) eqn:E2.
+  { split; [intros H; discriminate H|]. intros [_ [_ [_ [_ H]]]]. apply Hmp in H. discriminate H. }
+  destruct (o_post o) eqn:Epost.
+  - split.
+    + intros H. injection H as H. subst p. split; [reflexivity|]. split; [reflexivity|]. split; [reflexivity|].
+      split; [apply Hall; reflexivity | apply Hmp; reflexivity].
+    + intros [Hp _]. subst p. reflexivity.
+  - split; [intros H; discriminate H | intros [_ [_ [H _]]]; discriminate H].
 Qed.
 
 (* which handler ran, from the verdict *)
-Lemma ante_accept_cases : forall cfg md t rest p,
-  ante cfg md t rest = Accept p ->
-  (t_opts t = [] /\ cosmos_handler false cfg md t rest = Accept p /\ p = PCosmos) \/
-  (t_opts t = [opt_web3] /\ cosmos_handler true cfg md t rest = Accept p /\ p = PWeb3) \/
-  (t_opts t = [opt_eth] /\ eth_handler t rest = Accept p /\ p = PEth).
+Lemma ante_accept_cases : forall cfg md t o p,
+  ante cfg md t o = Accept p ->
+  (t_opts t = [] /\ cosmos_handler false cfg md t o = Accept p /\ p = PCosmos) \/
+  (t_opts t = [opt_web3] /\ cosmos_handler true cfg md t o = Accept p /\ p = PWeb3) \/
+  (t_opts t = [opt_eth] /\ eth_handler cfg md t o = Accept p /\ p = PEth).
 Proof.
-  intros cfg md t rest p H. unfold ante in H.
-  destruct (t_opts t) as [| o [| o' r]] eqn:Eo.
+  intros cfg md t o p H. unfold ante in H.
+  destruct (t_opts t) as [| u [| u' r]] eqn:Eo.
   - left. split; [reflexivity|]. split; [exact H|].
     apply cosmos_accept_iff in H. destruct H as [Hp _]. exact Hp.
-  - destruct (String.eqb o opt_eth) eqn:E1.
-    + apply String.eqb_eq in E1. subst o. right. right. split; [reflexivity|]. split; [exact H|].
+  - destruct (String.eqb u opt_eth) eqn:E1.
+    + apply String.eqb_eq in E1. subst u. right. right. split; [reflexivity|]. split; [exact H|].
       apply eth_accept_iff in H. destruct H as [Hp _]. exact Hp.
-    + destruct (String.eqb o opt_web3) eqn:E2.
-      * apply String.eqb_eq in E2. subst o. right. left. split; [reflexivity|]. split; [exact H|].
+    + destruct (String.eqb u opt_web3) eqn:E2.
+      * apply String.eqb_eq in E2. subst u. right. left. split; [reflexivity|]. split; [exact H|].
         apply cosmos_accept_iff in H. destruct H as [Hp _]. exact Hp.
       * discriminate H.
   - discriminate H.
@@ -343,29 +390,29 @@ Qed.
 
 (** * no_blocked_inside *)
 
-Theorem no_blocked_inside : forall cfg md t rest p,
-  ante cfg md t rest = Accept p ->
+Theorem no_blocked_inside : forall cfg md t o p,
+  ante cfg md t o = Accept p ->
   forall top, In top (t_msgs t) ->
     (forall m, sub m top -> ~ In (msg_url m) disabled_types) /\
     (forall m tg, (m = top \/ sub m top) -> m = Grant tg -> ~ In tg disabled_types).
 Proof.
-  intros cfg md t rest p H top Hin. apply clean_sub.
+  intros cfg md t o p H top Hin. apply clean_sub.
   destruct (ante_accept_cases _ _ _ _ _ H) as [[_ [Hc _]] | [[_ [Hc _]] | [_ [He _]]]].
-  - apply cosmos_accept_iff in Hc. destruct Hc as [_ [_ [_ [_ [_ Hcl]]]]]. apply Hcl. exact Hin.
-  - apply cosmos_accept_iff in Hc. destruct Hc as [_ [_ [_ [_ [_ Hcl]]]]]. apply Hcl. exact Hin.
-  - apply eth_accept_iff in He. destruct He as [_ [_ Hall]]. rewrite (Hall top Hin). apply clean_plain.
+  - apply cosmos_accept_iff in Hc. destruct Hc as [_ [_ [_ [_ [_ [_ Hcl]]]]]]. apply Hcl. exact Hin.
+  - apply cosmos_accept_iff in Hc. destruct Hc as [_ [_ [_ [_ [_ [_ Hcl]]]]]]. apply Hcl. exact Hin.
+  - apply eth_accept_iff in He. destruct He as [_ [_ [_ [Hall _]]]]. rewrite (Hall top Hin). apply clean_plain.
 Qed.
 
 (* the same, spelled out for the four concrete types *)
-Corollary no_eth_or_vesting_inside : forall cfg md t rest p,
-  ante cfg md t rest = Accept p ->
+Corollary no_eth_or_vesting_inside : forall cfg md t o p,
+  ante cfg md t o = Accept p ->
   forall top m, In top (t_msgs t) -> sub m top ->
     msg_url m <> url_eth /\ msg_url m <> url_vest_create /\
     msg_url m <> url_vest_perm /\ msg_url m <> url_vest_periodic /\
     (forall tg, m = Grant tg ->
        tg <> url_eth /\ tg <> url_vest_create /\ tg <> url_vest_perm /\ tg <> url_vest_periodic).
 Proof.
-  intros cfg md t rest p H top m Hin Hs.
+  intros cfg md t o p H top m Hin Hs.
   destruct (no_blocked_inside _ _ _ _ _ H top Hin) as [H1 H2].
   specialize (H1 m Hs).
   assert (Hg : forall tg, m = Grant tg -> ~ In tg disabled_types).
@@ -381,15 +428,15 @@ Qed.
 
 (** * vesting_top_level *)
 
-Theorem vesting_top_level : forall cfg md t rest p,
-  ante cfg md t rest = Accept p ->
+Theorem vesting_top_level : forall cfg md t o p,
+  ante cfg md t o = Accept p ->
   forall top, In top (t_msgs t) -> ~ In (msg_url top) vesting_types.
 Proof.
-  intros cfg md t rest p H top Hin.
+  intros cfg md t o p H top Hin.
   destruct (ante_accept_cases _ _ _ _ _ H) as [[_ [Hc _]] | [[_ [Hc _]] | [_ [He _]]]].
-  - apply cosmos_accept_iff in Hc. destruct Hc as [_ [_ [_ [_ [Hv _]]]]]. apply Hv. exact Hin.
-  - apply cosmos_accept_iff in Hc. destruct Hc as [_ [_ [_ [_ [Hv _]]]]]. apply Hv. exact Hin.
-  - apply eth_accept_iff in He. destruct He as [_ [_ Hall]]. rewrite (Hall top Hin). exact url_eth_not_vesting.
+  - apply cosmos_accept_iff in Hc. destruct Hc as [_ [_ [_ [_ [_ [Hv _]]]]]]. apply Hv. exact Hin.
+  - apply cosmos_accept_iff in Hc. destruct Hc as [_ [_ [_ [_ [_ [Hv _]]]]]]. apply Hv. exact Hin.
+  - apply eth_accept_iff in He. destruct He as [_ [_ [_ [Hall _]]]]. rewrite (Hall top Hin). exact url_eth_not_vesting.
 Qed.
 
 (** * eth_only_on_eth_path *)
@@ -397,126 +444,120 @@ Qed.
 Definition contains_eth (t : tx) : Prop :=
   exists top, In top (t_msgs t) /\ (top = Plain url_eth \/ sub (Plain url_eth) top).
 
-Theorem eth_only_on_eth_path : forall cfg md t rest p,
-  ante cfg md t rest = Accept p -> contains_eth t ->
+Theorem eth_only_on_eth_path : forall cfg md t o p,
+  ante cfg md t o = Accept p -> contains_eth t ->
   p = PEth /\ t_opts t = [opt_eth].
 Proof.
-  intros cfg md t rest p H [top [Hin Hc]].
+  intros cfg md t o p H [top [Hin Hc]].
   destruct (ante_accept_cases _ _ _ _ _ H) as [[_ [Hh _]] | [[_ [Hh _]] | [Ho [_ Hp]]]].
-  - exfalso. apply cosmos_accept_iff in Hh. destruct Hh as [_ [_ [Hne [_ [_ Hcl]]]]].
+  - exfalso. apply cosmos_accept_iff in Hh. destruct Hh as [_ [_ [_ [Hne [_ [_ Hcl]]]]]].
     destruct Hc as [Hc | Hc]; [exact (Hne top Hin Hc)|].
     apply sub_descendants in Hc. destruct (Hcl top Hin) as [Hd _].
     exact (Hd _ Hc url_eth_disabled).
-  - exfalso. apply cosmos_accept_iff in Hh. destruct Hh as [_ [_ [Hne [_ [_ Hcl]]]]].
+  - exfalso. apply cosmos_accept_iff in Hh. destruct Hh as [_ [_ [_ [Hne [_ [_ Hcl]]]]]].
     destruct Hc as [Hc | Hc]; [exact (Hne top Hin Hc)|].
     apply sub_descendants in Hc. destruct (Hcl top Hin) as [Hd _].
     exact (Hd _ Hc url_eth_disabled).
   - split; assumption.
 Qed.
 
-Theorem eth_path_only_eth_msgs : forall cfg md t rest,
-  ante cfg md t rest = Accept PEth ->
+Theorem eth_path_only_eth_msgs : forall cfg md t o,
+  ante cfg md t o = Accept PEth ->
   t_opts t = [opt_eth] /\ forall top, In top (t_msgs t) -> top = Plain url_eth.
 Proof.
-  intros cfg md t rest H.
+  intros cfg md t o H.
   destruct (ante_accept_cases _ _ _ _ _ H) as [[_ [_ Hp]] | [[_ [_ Hp]] | [Ho [He _]]]]; try discriminate Hp.
-  split; [exact Ho|]. apply eth_accept_iff in He. destruct He as [_ [_ Hall]]. exact Hall.
+  split; [exact Ho|]. apply eth_accept_iff in He. destruct He as [_ [_ [_ [Hall _]]]]. exact Hall.
 Qed.
 
-Theorem no_options_rejects_eth : forall cfg md t rest,
-  t_opts t = [] -> contains_eth t -> exists r, ante cfg md t rest = Reject r.
+Theorem no_options_rejects_eth : forall cfg md t o,
+  t_opts t = [] -> contains_eth t -> exists r, ante cfg md t o = Reject r.
 Proof.
-  intros cfg md t rest Ho Hc. destruct (ante cfg md t rest) as [p | r] eqn:E.
+  intros cfg md t o Ho Hc. destruct (ante cfg md t o) as [p | r] eqn:E.
   - destruct (eth_only_on_eth_path _ _ _ _ _ E Hc) as [_ Ho']. rewrite Ho in Ho'. discriminate Ho'.
   - exists r. reflexivity.
 Qed.
 
-Theorem several_options_rejected : forall cfg md t rest,
-  (2 <= length (t_opts t))%nat -> ante cfg md t rest = Reject RExtMany.
+Theorem several_options_rejected : forall cfg md t o,
+  (2 <= length (t_opts t))%nat -> ante cfg md t o = Reject RExtMany.
 Proof.
-  intros cfg md t rest Hl. unfold ante. destruct (t_opts t) as [| o [| o' r]]; cbn in Hl; try lia. reflexivity.
+  intros cfg md t o Hl. unfold ante. destruct (t_opts t) as [| u [| u' r]]; cbn in Hl; try lia. reflexivity.
 Qed.
 
-Theorem unknown_option_rejected : forall cfg md t rest o,
-  t_opts t = [o] -> o <> opt_eth -> o <> opt_web3 -> ante cfg md t rest = Reject RExtUnknown.
+Theorem unknown_option_rejected : forall cfg md t o u,
+  t_opts t = [u] -> u <> opt_eth -> u <> opt_web3 -> ante cfg md t o = Reject RExtUnknown.
 Proof.
-  intros cfg md t rest o Ho H1 H2. unfold ante. rewrite Ho.
+  intros cfg md t o u Ho H1 H2. unfold ante. rewrite Ho.
   apply String.eqb_neq in H1. apply String.eqb_neq in H2. rewrite H1, H2. reflexivity.
 Qed.
 
 (** * mempool_gate *)
 
-Theorem mempool_gate_partial : forall cfg md t rest p,
+(* on every path: with fetchers configured, CheckTx / ReCheckTx accept only
+   transactions with an authorised signer *)
+Theorem mempool_gate : forall cfg md t o p,
   c_fetchers cfg = true -> (md = CheckTx \/ md = ReCheckTx) ->
-  ante cfg md t rest = Accept p -> p <> PEth ->
+  ante cfg md t o = Accept p ->
   exists s, In s (t_signers t) /\ In s (c_authorised cfg).
 Proof.
-  intros cfg md t rest p Hf Hmd H Hp. apply gate_active_modes in Hmd.
-  destruct (ante_accept_cases _ _ _ _ _ H) as [[_ [Hc _]] | [[_ [Hc _]] | [_ [_ Hp']]]].
-  - apply cosmos_accept_iff in Hc. destruct Hc as [_ [_ [_ [Hg _]]]]. exact (Hg Hf Hmd).
-  - apply cosmos_accept_iff in Hc. destruct Hc as [_ [_ [_ [Hg _]]]]. exact (Hg Hf Hmd).
-  - contradiction.
+  intros cfg md t o p Hf Hmd H. apply gate_active_modes in Hmd.
+  destruct (ante_accept_cases _ _ _ _ _ H) as [[_ [Hc _]] | [[_ [Hc _]] | [_ [He _]]]].
+  - apply cosmos_accept_iff in Hc. destruct Hc as [_ [_ [_ [_ [Hg _]]]]]. exact (Hg Hf Hmd).
+  - apply cosmos_accept_iff in Hc. destruct Hc as [_ [_ [_ [_ [Hg _]]]]]. exact (Hg Hf Hmd).
+  - apply eth_accept_iff in He. destruct He as [_ [_ [_ [_ Hg]]]]. exact (Hg Hf Hmd).
 Qed.
 
-(* the Ethereum path has no AuthenticatedMempoolDecorator: the full statement
-   (without the guard [p <> PEth]) is false of the code as written *)
-Theorem mempool_gate_refuted :
-  exists cfg md t rest p,
-    c_fetchers cfg = true /\ md = CheckTx /\ ante cfg md t rest = Accept p /\
-    ~ exists s, In s (t_signers t) /\ In s (c_authorised cfg).
+Lemma gate_inactive : forall cfg md t, (md = DeliverTx \/ md = Simulate) -> gate cfg md t = None.
 Proof.
-  exists (mkCfg true [1%nat]), CheckTx, (mkTx [Plain url_eth] [opt_eth] [0%nat]), true, PEth.
-  split; [reflexivity|]. split; [reflexivity|]. split; [vm_compute; reflexivity|].
-  intros [s [Hs Ha]]. cbn in Hs, Ha. destruct Hs as [Hs | []]. destruct Ha as [Ha | []]. subst s. discriminate Ha.
+  intros cfg md t Hmd. unfold gate, authenticated_mempool.
+  destruct Hmd; subst md; cbn [is_check_tx simulate_flag negb andb]; destruct (c_fetchers cfg); reflexivity.
 Qed.
 
 (* block execution and simulation do not depend on the mempool configuration *)
-Theorem gate_inactive_unaffected : forall cfg cfg' md t rest,
-  (md = DeliverTx \/ md = Simulate) -> ante cfg md t rest = ante cfg' md t rest.
+Theorem gate_inactive_unaffected : forall cfg cfg' md t o,
+  (md = DeliverTx \/ md = Simulate) -> ante cfg md t o = ante cfg' md t o.
 Proof.
-  intros cfg cfg' md t rest Hmd. unfold ante.
-  assert (Hc : forall eip, cosmos_handler eip cfg md t rest = cosmos_handler eip cfg' md t rest).
-  { intros eip. rewrite !cosmos_handler_spec. unfold authenticated_mempool.
-    destruct Hmd; subst md; cbn [is_check_tx simulate_flag negb andb];
-      destruct (c_fetchers cfg), (c_fetchers cfg'); reflexivity. }
-  destruct (t_opts t) as [| o [| o' r]]; [apply Hc | | reflexivity].
-  destruct (String.eqb o opt_eth); [reflexivity|]. destruct (String.eqb o opt_web3); [apply Hc | reflexivity].
+  intros cfg cfg' md t o Hmd. unfold ante.
+  assert (Hc : forall eip, cosmos_handler eip cfg md t o = cosmos_handler eip cfg' md t o).
+  { intros eip. rewrite !cosmos_handler_spec, !(gate_inactive _ _ _ Hmd). reflexivity. }
+  assert (He : eth_handler cfg md t o = eth_handler cfg' md t o).
+  { rewrite !eth_handler_spec, !(gate_inactive _ _ _ Hmd). reflexivity. }
+  destruct (t_opts t) as [| u [| u' r]]; [apply Hc | | reflexivity].
+  destruct (String.eqb u opt_eth); [exact He|]. destruct (String.eqb u opt_web3); [apply Hc | reflexivity].
 Qed.
 
 (* an authorised signer makes the gate transparent; no fetchers, no gate *)
-Theorem gate_transparent : forall cfg md t rest,
+Theorem gate_transparent : forall cfg md t o,
   (c_fetchers cfg = false \/ exists s, In s (t_signers t) /\ In s (c_authorised cfg)) ->
-  ante cfg md t rest = ante (mkCfg false []) md t rest.
+  ante cfg md t o = ante (mkCfg false []) md t o.
 Proof.
-  intros cfg md t rest Hg. unfold ante.
-  assert (Hc : forall eip, cosmos_handler eip cfg md t rest = cosmos_handler eip (mkCfg false []) md t rest).
-  { intros eip. rewrite !cosmos_handler_spec. cbn [c_fetchers].
-    destruct (c_fetchers cfg) eqn:Ef; [| reflexivity].
-    destruct Hg as [Hg | Hg]; [discriminate Hg|].
-    apply common_addresses_spec in Hg. unfold authenticated_mempool. rewrite Hg.
-    destruct (is_check_tx md && negb (simulate_flag md)); reflexivity. }
-  destruct (t_opts t) as [| o [| o' r]]; [apply Hc | | reflexivity].
-  destruct (String.eqb o opt_eth); [reflexivity|]. destruct (String.eqb o opt_web3); [apply Hc | reflexivity].
+  intros cfg md t o Hg. unfold ante.
+  assert (Hgate : gate cfg md t = gate (mkCfg false []) md t).
+  { transitivity (@None reason); [| reflexivity]. apply gate_spec. intros Hf _.
+    destruct Hg as [Hg | Hg]; [rewrite Hg in Hf; discriminate Hf | exact Hg]. }
+  assert (Hc : forall eip, cosmos_handler eip cfg md t o = cosmos_handler eip (mkCfg false []) md t o).
+  { intros eip. rewrite !cosmos_handler_spec, Hgate. reflexivity. }
+  assert (He : eth_handler cfg md t o = eth_handler (mkCfg false []) md t o).
+  { rewrite !eth_handler_spec, Hgate. reflexivity. }
+  destruct (t_opts t) as [| u [| u' r]]; [apply Hc | | reflexivity].
+  destruct (String.eqb u opt_eth); [exact He|]. destruct (String.eqb u opt_web3); [apply Hc | reflexivity].
 Qed.
 
-(* a rejected unauthorised tx in CheckTx is rejected by the gate or earlier *)
-Theorem gate_rejects_unauthorised : forall cfg md t rest,
+(* an unauthorised tx is refused in CheckTx / ReCheckTx whatever its path *)
+Theorem gate_rejects_unauthorised : forall cfg md t o,
   c_fetchers cfg = true -> (md = CheckTx \/ md = ReCheckTx) ->
-  t_opts t <> [opt_eth] ->
   (forall s, In s (t_signers t) -> ~ In s (c_authorised cfg)) ->
-  exists r, ante cfg md t rest = Reject r.
+  exists r, ante cfg md t o = Reject r.
 Proof.
-  intros cfg md t rest Hf Hmd Ho Hn. destruct (ante cfg md t rest) as [p | r] eqn:E; [| exists r; reflexivity].
-  exfalso. assert (Hp : p <> PEth).
-  { intros Hp. subst p. apply eth_path_only_eth_msgs in E. destruct E as [E _]. exact (Ho E). }
-  destruct (mempool_gate_partial _ _ _ _ _ Hf Hmd E Hp) as [s [Hs Ha]]. exact (Hn s Hs Ha).
+  intros cfg md t o Hf Hmd Hn. destruct (ante cfg md t o) as [p | r] eqn:E; [| exists r; reflexivity].
+  exfalso. destruct (mempool_gate _ _ _ _ _ Hf Hmd E) as [s [Hs Ha]]. exact (Hn s Hs Ha).
 Qed.
 
 (** * Acceptance characterised (the gates reject nothing else) *)
 
-Theorem cosmos_acceptance_characterised : forall cfg md msgs signers rest,
-  ante cfg md (mkTx msgs [] signers) rest = Accept PCosmos <->
-  (rest = true /\
+Theorem cosmos_acceptance_characterised : forall cfg md msgs signers o,
+  ante cfg md (mkTx msgs [] signers) o = Accept PCosmos <->
+  (o_pre o = true /\ o_post o = true /\
    (forall top, In top msgs -> top <> Plain url_eth) /\
    (c_fetchers cfg = true -> (md = CheckTx \/ md = ReCheckTx) ->
       exists s, In s signers /\ In s (c_authorised cfg)) /\
@@ -525,14 +566,29 @@ Theorem cosmos_acceptance_characterised : forall cfg md msgs signers rest,
       (forall m, sub m top -> ~ In (msg_url m) disabled_types) /\
       (forall m tg, (m = top \/ sub m top) -> m = Grant tg -> ~ In tg disabled_types))).
 Proof.
-  intros cfg md msgs signers rest. unfold ante. cbn [t_opts].
+  intros cfg md msgs signers o. unfold ante. cbn [t_opts].
   rewrite cosmos_accept_iff. cbn [t_msgs t_signers]. split.
-  - intros [_ [Hr [H1 [H2 [H3 H4]]]]]. split; [exact Hr|]. split; [exact H1|].
+  - intros [_ [Hr [Hr' [H1 [H2 [H3 H4]]]]]]. split; [exact Hr|]. split; [exact Hr'|]. split; [exact H1|].
     split; [intros Hf Hmd; apply H2; [exact Hf | apply gate_active_modes; exact Hmd]|].
     split; [exact H3|]. intros top Hin. apply clean_sub. apply H4. exact Hin.
-  - intros [Hr [H1 [H2 [H3 H4]]]]. split; [reflexivity|]. split; [exact Hr|]. split; [exact H1|].
+  - intros [Hr [Hr' [H1 [H2 [H3 H4]]]]]. split; [reflexivity|]. split; [exact Hr|]. split; [exact Hr'|]. split; [exact H1|].
     split; [intros Hf Hmd; apply H2; [exact Hf | apply gate_active_modes; exact Hmd]|].
     split; [exact H3|]. intros top Hin. apply clean_sub. apply H4. exact Hin.
+Qed.
+
+Theorem eth_acceptance_characterised : forall cfg md msgs signers o,
+  ante cfg md (mkTx msgs [opt_eth] signers) o = Accept PEth <->
+  (o_pre o = true /\ o_post o = true /\
+   (forall top, In top msgs -> top = Plain url_eth) /\
+   (c_fetchers cfg = true -> (md = CheckTx \/ md = ReCheckTx) ->
+      exists s, In s signers /\ In s (c_authorised cfg))).
+Proof.
+  intros cfg md msgs signers o. unfold ante. cbn [t_opts]. rewrite String.eqb_refl.
+  rewrite eth_accept_iff. cbn [t_msgs t_signers]. split.
+  - intros [_ [Hr [Hr' [H1 H2]]]]. split; [exact Hr|]. split; [exact Hr'|]. split; [exact H1|].
+    intros Hf Hmd. apply H2; [exact Hf | apply gate_active_modes; exact Hmd].
+  - intros [Hr [Hr' [H1 H2]]]. split; [reflexivity|]. split; [exact Hr|]. split; [exact Hr'|]. split; [exact H1|].
+    intros Hf Hmd. apply H2; [exact Hf | apply gate_active_modes; exact Hmd].
 Qed.
 
 (** * The boolean invariant of the correspondence run is a consequence *)
@@ -540,9 +596,9 @@ Qed.
 Lemma list_eqb_string_refl : forall l, list_eqb String.eqb l l = true.
 Proof. induction l as [| x r IH]; cbn; [reflexivity | rewrite String.eqb_refl, IH; reflexivity]. Qed.
 
-Theorem inv_b_holds : forall cfg md t rest, inv_b cfg md t rest = true.
+Theorem inv_b_holds : forall cfg md t o, inv_b cfg md t o = true.
 Proof.
-  intros cfg md t rest. unfold inv_b. destruct (ante cfg md t rest) as [p | r] eqn:E; [| reflexivity].
+  intros cfg md t o. unfold inv_b. destruct (ante cfg md t o) as [p | r] eqn:E; [| reflexivity].
   assert (H1 : existsb (blocked_inside_b disabled_types) (t_msgs t) = false).
   { destruct (existsb (blocked_inside_b disabled_types) (t_msgs t)) eqn:Ex; [| reflexivity]. exfalso.
     apply existsb_exists in Ex. destruct Ex as [top [Hin Hb]].
@@ -564,15 +620,10 @@ Proof.
     { exists top. split; [exact Hin|]. destruct Hd as [Hd | Hd]; [left; exact Hd | right; apply sub_descendants; exact Hd]. }
     destruct (eth_only_on_eth_path _ _ _ _ _ E Hc) as [Hp Ho]. subst p. rewrite Ho. apply list_eqb_string_refl. }
   rewrite H3. cbn [andb].
-  destruct p; try reflexivity.
-  - destruct (c_fetchers cfg) eqn:Ef; [| reflexivity]. cbn [negb orb].
-    destruct (is_check_tx md && negb (simulate_flag md)) eqn:Eg; [| reflexivity]. cbn [negb orb].
-    apply common_addresses_spec. apply (mempool_gate_partial cfg md t rest PCosmos Ef); [| exact E | discriminate].
-    apply gate_active_modes. exact Eg.
-  - destruct (c_fetchers cfg) eqn:Ef; [| reflexivity]. cbn [negb orb].
-    destruct (is_check_tx md && negb (simulate_flag md)) eqn:Eg; [| reflexivity]. cbn [negb orb].
-    apply common_addresses_spec. apply (mempool_gate_partial cfg md t rest PWeb3 Ef); [| exact E | discriminate].
-    apply gate_active_modes. exact Eg.
+  destruct (c_fetchers cfg) eqn:Ef; [| reflexivity]. cbn [negb orb].
+  destruct (is_check_tx md && negb (simulate_flag md)) eqn:Eg; [| reflexivity]. cbn [negb orb].
+  apply common_addresses_spec. apply (mempool_gate cfg md t o p Ef); [| exact E].
+  apply gate_active_modes. exact Eg.
 Qed.
 
 (** * Unbounded depth: a witness family *)
@@ -596,12 +647,12 @@ Proof.
 Qed.
 
 (* at every depth, and behind any siblings, a blocked type is refused *)
-Theorem deep_blocked_rejected : forall cfg md n u before after others signers opts rest,
+Theorem deep_blocked_rejected : forall cfg md n u before after others signers opts o,
   In u disabled_types ->
-  exists r, ante cfg md (mkTx (before ++ wrap (S n) (Plain u) :: after ++ others) opts signers) rest = Reject r.
+  exists r, ante cfg md (mkTx (before ++ wrap (S n) (Plain u) :: after ++ others) opts signers) o = Reject r.
 Proof.
-  intros cfg md n u before after others signers opts rest Hu.
-  destruct (ante cfg md _ rest) as [p | r] eqn:E; [| exists r; reflexivity].
+  intros cfg md n u before after others signers opts o Hu.
+  destruct (ante cfg md _ o) as [p | r] eqn:E; [| exists r; reflexivity].
   exfalso.
   assert (Hin : In (wrap (S n) (Plain u)) (t_msgs (mkTx (before ++ wrap (S n) (Plain u) :: after ++ others) opts signers))).
   { cbn [t_msgs]. apply in_or_app. right. left. reflexivity. }
